@@ -338,6 +338,95 @@ Proof.
   destruct Ha. repeat split; assumption.
 Qed.
 
+(* ================================================================ Part 2b: a node that enforces the security extension *)
+
+Lemma forallb_filter_guard3 {A} (p q r : A -> bool) l :
+  forallb (fun e => negb (p e) || q e || r e) (filter p l) = forallb (fun e => negb (p e) || q e || r e) l.
+Proof.
+  induction l as [|x l IH]; cbn [filter forallb]; [reflexivity|].
+  destruct (p x) eqn:E; cbn [forallb negb orb]; rewrite ?E; cbn [negb orb]; rewrite IH; reflexivity.
+Qed.
+
+Lemma forallb_ext' {A} (f g : A -> bool) l : (forall x, f x = g x) -> forallb f l = forallb g l.
+Proof. intros H. induction l as [|x l IH]; cbn [forallb]; [reflexivity|]. rewrite H, IH. reflexivity. Qed.
+
+Lemma ra_mem_filter (p : ra_ent -> bool) e l : p e = true -> ra_mem e (filter p l) = ra_mem e l.
+Proof.
+  intros Hp. apply eq_iff_eq_true. rewrite !ra_mem_In, filter_In. split; [intros [H _]; exact H | intros H; split; assumption].
+Qed.
+
+(* the candidates that cannot enter anyway do not matter to the relation *)
+Lemma ra_accept_filter_admissible root must may obs :
+  ra_accept root (filter (ra_admissible root) must) may obs = ra_accept root must may obs.
+Proof.
+  unfold ra_accept.
+  rewrite (forallb_filter_guard3 (ra_admissible root) (fun e => ra_mem e (map fst obs))
+             (fun e => Nat.leb K (ra_count root (ra_bucket root e) (map fst obs))) must).
+  f_equal. f_equal. f_equal. apply forallb_ext'. intros o.
+  destruct (ra_admissible root (fst o)) eqn:E; cbn [andb]; [|reflexivity].
+  rewrite (ra_mem_filter (ra_admissible root) (fst o) must E). reflexivity.
+Qed.
+
+Lemma ra_accept_obs_admissible root must may obs :
+  ra_accept root must may obs = true -> forallb (fun o => ra_admissible root (fst o)) obs = true.
+Proof.
+  unfold ra_accept. rewrite !andb_true_iff. intros [[[_ H2] _] _].
+  rewrite forallb_forall in H2. apply forallb_forall. intros o Ho. specialize (H2 o Ho).
+  rewrite !andb_true_iff in H2. tauto.
+Qed.
+
+(* with the security extension off the relation is the one of Part 2 *)
+Theorem ra_accept_s_nosec root must may obs :
+  ra_accept_s true root must may obs = ra_accept root must may obs.
+Proof.
+  unfold ra_accept_s.
+  change (fun o : ra_ent * nat => ra_adm_s true root (fst o)) with (fun o : ra_ent * nat => ra_admissible root (fst o)).
+  change (ra_adm_s true root) with (ra_admissible root).
+  rewrite ra_accept_filter_admissible.
+  destruct (ra_accept root must may obs) eqn:E; [|apply andb_false_r].
+  rewrite (ra_accept_obs_admissible root must may obs E). reflexivity.
+Qed.
+
+Lemma ra_run_s_filter nosec root l tbl :
+  fold_left (ra_add_s nosec root) l tbl = fold_left (ra_add root) (filter (ra_adm_s nosec root) l) tbl.
+Proof.
+  revert tbl. induction l as [|e l IH]; intros tbl; cbn [fold_left filter]; [reflexivity|].
+  unfold ra_add_s at 2. destruct (ra_adm_s nosec root e); cbn [fold_left]; apply IH.
+Qed.
+
+(* every serial order of offers to a node with or without the security extension is accepted *)
+Theorem ra_seq_accept_s nosec root offers :
+  ra_accept_s nosec root offers [] (ra_observe root (ra_run_s nosec root offers)) = true.
+Proof.
+  unfold ra_accept_s, ra_run_s. rewrite ra_run_s_filter.
+  fold (ra_run root (filter (ra_adm_s nosec root) offers)).
+  rewrite ra_seq_accept, andb_true_r.
+  apply forallb_forall. intros o Ho. unfold ra_observe in Ho. apply in_map_iff in Ho.
+  destruct Ho as (e & <- & He). cbn [fst].
+  destruct (ra_run_wf root (filter (ra_adm_s nosec root) offers)) as (_ & Hin & _).
+  destruct (Hin e He) as (_ & _ & Hf). apply filter_In in Hf. apply Hf.
+Qed.
+
+(* what an accepted table of an enforcing node satisfies: no entry whose id is not valid for its
+   address, no own / zero id, and the clauses of ra_accept_wf for the candidates that may enter *)
+Theorem ra_accept_s_wf root must may obs :
+  ra_accept_s false root must may obs = true ->
+  (forall e b, In (e, b) obs -> ra_secure e = true /\ ra_id e <> root /\ ra_id e <> 0%N) /\
+  NoDup (map fst obs) /\
+  (forall b, (ra_count root b (map fst obs) <= K)%nat) /\
+  (forall e, In e must -> ra_id e <> root -> ra_id e <> 0%N -> ra_secure e = true ->
+     In e (map fst obs) \/ (K <= ra_count root (ra_bucket root e) (map fst obs))%nat).
+Proof.
+  unfold ra_accept_s. rewrite andb_true_iff. intros [Ho Ha].
+  apply ra_accept_wf in Ha. destruct Ha as (Hnd & _ & Hc & Hcomp).
+  rewrite forallb_forall in Ho. split; [|split; [exact Hnd|split; [exact Hc|]]].
+  - intros e b Hin. specialize (Ho (e, b) Hin). cbn [fst ra_adm_s] in Ho.
+    apply andb_true_iff in Ho. destruct Ho as [Had Hs]. apply ra_admissible_spec in Had.
+    destruct Had. repeat split; assumption.
+  - intros e He Hr Hz Hs. apply Hcomp; try assumption. apply filter_In. split; [exact He|].
+    cbn [ra_adm_s]. rewrite Hs, andb_true_r. apply ra_admissible_spec. split; assumption.
+Qed.
+
 (* ================================================================ Part 3: the API's counters *)
 
 Lemma filter_map_length {A B} (f : A -> B) (p : B -> bool) l :
@@ -363,6 +452,21 @@ Proof. reflexivity. Qed.
 
 (* ---- non-vacuity: concrete tables. root = 1; ids 2 and 3 share 158 leading bits with it *)
 Definition ex_e (i p : N) : ra_ent := mkRaEnt i [x01; x02; x03; x04]%byte p.
+
+(* an all-zero id written into the table by a loader that skips the server's admission (a nodes file
+   with a record of unknown id) is rejected with and without the security extension; an id that is
+   not valid for its address is rejected exactly when the extension is enforced *)
+Example ra_rejects_zero_and_insecure :
+  ra_accept_s true 1 [ex_e 0 7; ex_e 2 7] [] [(ex_e 2 7, 158%nat)] = true /\
+  ra_accept_s true 1 [ex_e 0 7; ex_e 2 7] [] [(ex_e 2 7, 158%nat); (ex_e 0 7, 159%nat)] = false /\
+  ra_why_s true 1 [ex_e 0 7; ex_e 2 7] [] [(ex_e 2 7, 158%nat); (ex_e 0 7, 159%nat)] = 2%nat /\
+  ra_secure (ex_e 2 7) = false /\
+  ra_accept_s false 1 [ex_e 2 7] [] [(ex_e 2 7, 158%nat)] = false /\
+  ra_why_s false 1 [ex_e 2 7] [] [(ex_e 2 7, 158%nat)] = 7%nat /\
+  ra_accept_s false 1 [ex_e 2 7] [] [] = true /\
+  ra_run_s false 1 [ex_e 2 7; ex_e 0 7; ex_e 1 7] = [] /\
+  ra_run_s true 1 [ex_e 2 7; ex_e 0 7; ex_e 1 7] = [ex_e 2 7].
+Proof. vm_compute. repeat split. Qed.
 
 (* a duplicated (id, address) pair — what overlapping AddNode calls leave behind when the insertion
    does not re-check under the write lock — is rejected, for any candidate lists *)
